@@ -455,7 +455,22 @@ def int_counters(f, L):
                 else:
                     steps.append(None)
         if steps and all(s is not None and s == steps[0] for s in steps):
-            out.append((ph, steps[0]))
+            # an integer that indexes memory (`nptr[i]` instead of `*nptr++`) is the text cursor, not a counter of digits
+            work, seen, indexes = [ph], set(), False
+            while work and not indexes:
+                x = work.pop()
+                if x.id in seen:
+                    continue
+                seen.add(x.id)
+                for u in f.users(x):
+                    if u.op in ('sext', 'zext', 'trunc'):
+                        work.append(u)
+                    elif u.op == 'add' and any(o.k == 'ci' for o in u.ops) and u.id != ph.id:
+                        work.append(u)
+                    elif u.op == 'getelementptr' and any(o.k == 'inst' and o.id == x.id for o in u.ops[1:]):
+                        indexes = True
+            if not indexes:
+                out.append((ph, steps[0]))
     return out
 
 
